@@ -16,7 +16,7 @@ pub static C01: Scenario = Scenario {
     level: "exploration",
     rule: RULE,
     runs: |t| match t {
-        Tier::Quick => 12_000,
+        Tier::Quick => 40_000,
         Tier::Thorough => 600_000,
     },
     gen: |c, i| gen(c, i, true),
@@ -33,7 +33,7 @@ pub static C02: Scenario = Scenario {
     level: "exploration",
     rule: RULE,
     runs: |t| match t {
-        Tier::Quick => 6_000,
+        Tier::Quick => 20_000,
         Tier::Thorough => 200_000,
     },
     gen: |c, i| gen(c, i, false),
